@@ -512,6 +512,10 @@ def str_index_to(it, args, callee):
 
 @pattern(r'^core::str::<impl str>::starts_with::<.*>$')
 def str_starts_with(it, args, callee):
+    p = deref_all(args[1]) if isinstance(args[1], Ref) else args[1]
+    if not isinstance(p, (Str, DecStr)):
+        import models2
+        return models2.str_starts_with_char(it, args, callee)
     a, b = as_str(args[0]), as_str(deref_all(args[1]))
     if len(b.b) > len(a.b):
         return False
@@ -520,6 +524,10 @@ def str_starts_with(it, args, callee):
 
 @pattern(r'^core::str::<impl str>::ends_with::<.*>$')
 def str_ends_with(it, args, callee):
+    p = deref_all(args[1]) if isinstance(args[1], Ref) else args[1]
+    if not isinstance(p, (Str, DecStr)):
+        import models2
+        return models2.str_starts_with_char(it, args, callee)
     a, b = as_str(args[0]), as_str(deref_all(args[1]))
     if len(b.b) > len(a.b):
         return False
@@ -627,7 +635,7 @@ def str_parse_i64(it, args, callee):
         d = s.d
         if d.s > 0:
             return Err(Opaque('ParseIntError'))
-        if d.src is not None and d.src[0] == 'bv' and d.src[1].size() == 64 and d.src[2]:
+        if d.src is not None and d.src != 'negzero' and d.src[0] == 'bv' and d.src[1].size() == 64 and d.src[2]:
             return Ok(d.src[1])
         m = d.m
         inr = z3.And(m >= -(1 << 63), m < (1 << 63))
@@ -1111,6 +1119,8 @@ for _n in ('add', 'sub', 'mul', 'div', 'rem'):
 @model('<rust_decimal::Decimal as Neg>::neg')
 def dec_neg(it, args, callee):
     a = args[0]
+    if not is_sym(a.m) and a.m == 0:
+        return Dec(0, a.s, None if a.src == 'negzero' else 'negzero')
     return Dec(simp(-a.m) if is_sym(a.m) else -a.m, a.s)
 
 
@@ -1132,7 +1142,7 @@ def dec_clone(it, args, callee):
 
 def dec_to_text(d):
     m, s = d.m, d.s
-    neg = m < 0
+    neg = m < 0 or (m == 0 and d.src == 'negzero')
     digits = str(abs(m))
     if s > 0:
         if len(digits) <= s:
@@ -1146,7 +1156,7 @@ def dec_to_string(it, args, callee):
     d = deref_all(args[0])
     if is_sym(d.m):
         text = None
-        if d.src is not None and not isinstance(d.src[0], str):
+        if d.src is not None and d.src != 'negzero' and not isinstance(d.src[0], str):
             neg, ints, fracs = d.src
             ints = list(ints)
             # Display strips leading zeros of the integer part (keeps one digit)
@@ -1203,7 +1213,7 @@ def dec_from_str_concrete(bs):
         i += 1
     if not has:
         return 'err'
-    return Dec(-data if neg else data, scale)
+    return Dec(-data if neg else data, scale, 'negzero' if (neg and data == 0) else None)
 
 
 @model('<rust_decimal::Decimal as std::str::FromStr>::from_str', '<rust_decimal::Decimal as FromStr>::from_str',
